@@ -40,17 +40,6 @@ def resOf (states : Array USt) : SExp → Option (Outcome USt)
   | .atom "!" => some .panic
   | x => do let j ← x.nat?; let s ← states[j]?; pure (.next s)
 
-/-- declarative initial state (C06_init): every actor started in index order, commands applied per component -/
-def specInit (sys : USys) : USt :=
-  let starts := (List.range sys.n).map (fun i => (i, (sys.actor i).start i))
-  let sends := starts.flatMap (fun p => sendsOf p.1 p.2.2)
-  { actors := starts.map (·.2.1)
-    net := sendAll sys.initNet sends
-    timers := starts.map (fun p => p.2.2.foldl applyTimerCmd [])
-    random := starts.map (fun p => p.2.2.foldl applyRandomCmd [])
-    crashed := List.replicate sys.n false
-    hist := recordOuts sys sys.initHist sends }
-
 def checkRecord (sys : USys) (states : Array USt) (i : Nat) (st : USt) (rec : List SExp) : Option String := do
   let mut listed : List Action := []
   for t in rec do
